@@ -29,6 +29,7 @@ def run(chk):
         rule_redef(chk, pc)
         rule_include(chk, pc)
     rule_args(chk)
+    rule_expand_eval(chk)
     rule_once(chk)
     rule_defines(chk)
     import c08
@@ -232,6 +233,182 @@ def rule_args(chk):
         chk.ob("C12.args/param-index", ok_arg, "a parameter name in the body becomes MacroArg(index of that parameter)" if ok_arg else
                "Macro::parse no longer maps a parameter reference to MacroArg(<its position>)", where(mp))
         chk.ob("C12.args/concat-token", ok_cat, "## in a body becomes Token::Concat" if ok_cat else "## in a macro body is no longer turned into Concat", where(mp))
+
+# ---- apply_macros read as a function of (macro definitions, token list), against textual substitution
+
+def _tok(tok, I):
+    LOC = I.Opaque("loc")
+    simple = {" ": "Whitespace", "(": "LeftParen", ")": "RightParen", ",": "Comma", "+": "Plus", "*": "Asterix", ";": "Semicolon"}
+    if tok in simple:
+        t = I.Enum("Token", simple[tok])
+    elif isinstance(tok, int):
+        t = I.Enum("Token", "LiteralInt", {"0": tok})
+    elif tok.startswith("$"):
+        t = I.Enum("Token", "MacroArg", {"0": int(tok[1:])})
+    else:
+        t = I.Enum("Token", "Id", {"0": I.Enum("Identifier", None, {"0": tok})})
+    return I.Enum("PreprocessToken", None, {"0": t, "1": LOC})
+
+
+def _untok(t):
+    k = t.fields["0"]
+    simple = {"Whitespace": " ", "LeftParen": "(", "RightParen": ")", "Comma": ",", "Plus": "+", "Asterix": "*", "Semicolon": ";"}
+    if k.variant in simple:
+        return simple[k.variant]
+    if k.variant == "Id":
+        return k.fields["0"].fields["0"]
+    if k.variant == "MacroArg":
+        return "$%d" % k.fields["0"]
+    return k.fields.get("0")
+
+
+class _MacroError(Exception):
+    pass
+
+
+def ref_expand(tokens, macros, disabled=frozenset()):
+    """Textual substitution: object-like and function-like macros, arguments split at top-level commas and fully
+    expanded before they are substituted, the replacement rescanned with the macro itself switched off, a
+    function-like name without an argument list left alone. macros: {name: (n_params or None, body)}"""
+    out = []
+    i = 0
+    while i < len(tokens):
+        t = tokens[i]
+        m = macros.get(t) if isinstance(t, str) and t not in disabled else None
+        if m is None:
+            out.append(t)
+            i += 1
+            continue
+        nparams, body = m
+        j = i + 1
+        args = []
+        if nparams is not None:
+            k = j
+            while k < len(tokens) and tokens[k] == " ":
+                k += 1
+            if k >= len(tokens) or tokens[k] != "(":
+                out.append(t)
+                i += 1
+                continue
+            depth, cur, k = 0, [], k + 1
+            while True:
+                if k >= len(tokens):
+                    raise _MacroError("arguments never end")
+                x = tokens[k]
+                if x == "(":
+                    depth += 1
+                elif x == ")":
+                    if depth == 0:
+                        args.append(cur)
+                        break
+                    depth -= 1
+                elif x == "," and depth == 0:
+                    args.append(cur)
+                    cur = []
+                    k += 1
+                    continue
+                cur.append(x)
+                k += 1
+            j = k + 1
+            strip = lambda a: [y for n_, y in enumerate(a) if not (y == " " and (all(z == " " for z in a[:n_ + 1]) or all(z == " " for z in a[n_:])))]
+            args = [strip(a) for a in args]
+            if nparams == 0:
+                if not (len(args) == 1 and not args[0]):
+                    raise _MacroError("argument count")
+            elif len(args) != nparams:
+                raise _MacroError("argument count")
+            args = [ref_expand(a, macros, frozenset()) for a in args]
+        rep = []
+        for b in body:
+            if isinstance(b, str) and b.startswith("$"):
+                rep.extend(args[int(b[1:])])
+            else:
+                rep.append(b)
+        rep = ref_expand(rep, macros, disabled | {t})
+        # a function-like macro name that ends the replacement takes its arguments from the text that follows
+        if rep and isinstance(rep[-1], str) and rep[-1] in macros and macros[rep[-1]][0] is not None and rep[-1] not in disabled and rep[-1] != t:
+            k = j
+            while k < len(tokens) and tokens[k] == " ":
+                k += 1
+            if k < len(tokens) and tokens[k] == "(":
+                out.extend(rep[:-1])
+                tokens = [rep[-1]] + list(tokens[j:])
+                i = 0
+                continue
+        out.extend(rep)
+        i = j
+    return out
+
+
+EXPAND_MACROS = {
+    "obj": {"A": (None, [1]), "B": (None, ["A", "+", "A"]), "E": (None, [])},
+    "chain": {"A": (None, ["B"]), "B": (None, ["C"]), "C": (None, [3])},
+    "cycle": {"A": (None, ["B"]), "B": (None, ["A", "+", 1])},
+    "self": {"A": (None, ["A", "+", 1])},
+    "fn": {"F": (1, ["$0", "+", "$0"]), "G": (2, ["$1", "*", "$0"]), "Z": (0, [5]), "X": (None, [3])},
+    "fnself": {"F": (1, ["F", "(", "$0", "+", 1, ")"])},
+    "handoff": {"F": (None, ["G"]), "G": (1, ["(", "$0", ")"])},
+    "nestdef": {"F": (1, ["G", "(", "$0", ",", "$0", ")"]), "G": (2, ["$0", "+", "$1"]), "X": (None, ["Y"]), "Y": (None, [2])},
+}
+EXPAND_INPUTS = {
+    "obj": [["A"], ["B", ";"], ["x", "A", "y"], ["E", "A", "E"], ["AA"], []],
+    "chain": [["A"], ["A", "+", "B", "+", "C"]],
+    "cycle": [["A"], ["B"], ["A", ",", "B"]],
+    "self": [["A"], ["A", "A"]],
+    "fn": [["F", "(", 2, ")"], ["F", " ", "(", 2, ")"], ["F"], ["F", ";"], ["F", "(", "X", ")"], ["F", "(", "F", "(", "X", ")", ")"], ["G", "(", "a", ",", "b", ")"],
+           ["G", "(", "(", "a", ",", "b", ")", ",", "c", ")"], ["G", "(", " ", "a", " ", ",", " ", "b", " ", ")"], ["Z", "(", ")"], ["Z", "(", 1, ")"], ["F", "(", ")"],
+           ["F", "(", 1, ",", 2, ")"], ["G", "(", 1, ")"], ["F", "(", 1], ["G", "(", "F", "(", 1, ")", ",", "Z", "(", ")", ")"], ["x", "F", "(", "y", ")", "z"],
+           ["F", "(", "G", "(", 1, ",", 2, ")", ")"], ["F", "(", "(", 1, ")", ")"]],
+    "fnself": [["F", "(", 1, ")"]],
+    "handoff": [["F", "(", 7, ")"], ["F"], ["F", " ", "(", 7, ")"], ["F", ";", "(", 7, ")"]],
+    "nestdef": [["F", "(", "X", ")"], ["F", "(", "G", "(", "X", ",", 1, ")", ")"]],
+}
+
+
+def rule_expand_eval(chk):
+    """apply_macros walked by the finite-map reader on model token lists (eight macro sets, 39 inputs) against textual
+    substitution written in the rule (ref_expand): same tokens, or an error exactly where the reference has one
+    (argument count, unterminated argument list). True when readable."""
+    import interp as I
+    f = chk.facts
+    am = f.fn("apply_macros", PP)
+    if not am:
+        return False
+    ip = I.Interp(f, max_depth=16, extern={})
+    ip.max_loop = 512
+    n = 0
+    for set_name, macros in EXPAND_MACROS.items():
+        mdefs = [I.Enum("Macro", None, {"name": nm, "is_function": np_ is not None, "num_params": np_ or 0, "tokens": [_tok(x, I) for x in body], "location": I.Opaque("loc")})
+                 for nm, (np_, body) in macros.items()]
+        bad = None
+        for toks in EXPAND_INPUTS[set_name]:
+            n += 1
+            try:
+                want = ("ok", ref_expand(list(toks), macros))
+            except _MacroError as e:
+                want = ("err", str(e))
+            try:
+                r = ip.apply(am, [[_tok(x, I) for x in toks], mdefs, False, I.Opaque("source manager")])
+            except I.Unknown as e:
+                if "panicking" in str(e):
+                    bad = bad or "expanding `%s` aborts (%s)" % (" ".join(map(str, toks)), str(e)[:60])
+                    continue
+                return chk.unreadable("C12.expand/readable", "apply_macros", e, where(am))
+            if isinstance(r, I.Enum) and r.variant == "Ok":
+                got = ("ok", [_untok(t) for t in r.fields["0"]])
+            elif isinstance(r, I.Enum) and r.variant == "Err":
+                got = ("err", getattr(r.fields.get("0"), "variant", "?"))
+            else:
+                return chk.unreadable("C12.expand/readable", "apply_macros", "result %r" % (r,), where(am))
+            if got[0] != want[0] or (got[0] == "ok" and got[1] != want[1]):
+                show = lambda x: " ".join(map(str, x[1])) if x[0] == "ok" else "error (%s)" % x[1]
+                bad = bad or "with %s, `%s` expands to `%s`; textual substitution gives `%s`" % (
+                    ", ".join("#define %s%s %s" % (k, "(%d)" % v[0] if v[0] is not None else "", " ".join(map(str, v[1]))) for k, v in macros.items()),
+                    " ".join(map(str, toks)), show(got), show(want))
+        chk.ob("C12.expand/" + set_name, bad is None, "%d inputs expand as textual substitution does" % len(EXPAND_INPUTS[set_name]) if bad is None else bad, where(am),
+               sample={"macros": set_name, "inputs": len(EXPAND_INPUTS[set_name])})
+    chk.floor("C12.floor/expand-cases", n, 35, "token lists expanded", where(am))
+    return True
 
 
 def macro_parse_model(f):
